@@ -8,6 +8,7 @@
 package main
 
 import (
+	"time"
 	"context"
 	"errors"
 	"flag"
@@ -188,6 +189,12 @@ func setFromUpdateHandler(par, rounds int, rng *hx.Rand) (int, string) {
 			mid, late, upd = 1+rng.Intn(400), 401+rng.Intn(400), 1+rng.Intn(9)
 			wv := rng.Intn(1000)
 			w.Set(wv + 1000*i + 1) // always a change: m recomputes, its handler runs
+			if rng.Chance(1, 2) {
+				// the var is also written between the passes: this pass computes from that value,
+				// and the writes made during the pass come on top of it
+				vv = 900 + rng.Intn(90)
+				v.Set(vv)
+			}
 			before := vv*1000 + uv
 			if err := pass(g, par); err != nil {
 				return passes, err.Error()
@@ -392,6 +399,74 @@ func memoFoldReuse(par, rounds int, rng *hx.Rand) (int, string) {
 	return passes, ""
 }
 
+// time-driven nodes woken by Clock.Advance sitting in the height block of a bind whose function
+// fails in that pass: the wake must survive the failed pass
+func timeNodesNextToFailingBind(par, rounds int, rng *hx.Rand) (int, string) {
+	passes := 0
+	for r := 0; r < rounds; r++ {
+		g := newGraph(par)
+		start := time.Date(2030, 1, 1, 0, 0, 0, 0, time.UTC)
+		clock := incr.NewClock(start)
+		sel := incr.Var(g, 0)
+		src := incr.Var(g, 7)
+		failNow := false
+		b := incr.BindContext(g, sel, func(_ context.Context, bs incr.Scope, s int) (incr.Incr[int], error) {
+			if failNow {
+				return nil, errors.New("planned bind failure")
+			}
+			return incr.Return(bs, s), nil
+		})
+		snapAt := start.Add(time.Duration(2+rng.Intn(5)) * time.Minute)
+		snap := incr.Snapshot(g, clock, src, snapAt, -1)
+		atWhen := start.Add(time.Duration(1+rng.Intn(6)) * time.Minute)
+		at := incr.At(g, clock, atWhen)
+		ob, os, oa := incr.MustObserve(g, b), incr.MustObserve(g, snap), incr.MustObserve(g, at)
+		if err := pass(g, par); err != nil {
+			return passes, err.Error()
+		}
+		passes++
+		now := start
+		srcVal := 7
+		captured, have := -1, false
+		for step := 0; step < 8; step++ {
+			now = now.Add(time.Duration(1+rng.Intn(3)) * time.Minute)
+			clock.Advance(now)
+			srcVal = 10 + rng.Intn(80)
+			src.Set(srcVal)
+			failNow = rng.Chance(1, 2)
+			if failNow {
+				sel.Set(100 + step)
+			}
+			err := pass(g, par)
+			passes++
+			if failNow != (err != nil) {
+				return passes, fmt.Sprintf("round %d step %d: bind failure planned=%v, pass returned %v", r, step, failNow, err)
+			}
+			if failNow {
+				failNow = false
+				if err := pass(g, par); err != nil {
+					return passes, fmt.Sprintf("round %d step %d: retry failed: %v", r, step, err)
+				}
+				passes++
+			}
+			if !have && !now.Before(snapAt) {
+				captured, have = srcVal, true
+			}
+			if have && os.Value() != captured {
+				return passes, fmt.Sprintf("round %d step %d: Snapshot reads %d, the value its input held at the first successful pass at or after its time was %d", r, step, os.Value(), captured)
+			}
+			if !have && os.Value() != -1 {
+				return passes, fmt.Sprintf("round %d step %d: Snapshot reads %d before its time", r, step, os.Value())
+			}
+			if oa.Value() != !now.Before(atWhen) {
+				return passes, fmt.Sprintf("round %d step %d: At reads %v at %v, its time is %v", r, step, oa.Value(), now.Sub(start), atWhen.Sub(start))
+			}
+			_ = ob
+		}
+	}
+	return passes, ""
+}
+
 // one height block: some nodes fail (error or panic) and re-queue themselves while their
 // siblings succeed and queue children
 func failingSiblings(par, rounds int, rng *hx.Rand) (int, string) {
@@ -564,6 +639,7 @@ func main() {
 		{"writes-from-update-handlers", "a var written mid-pass by a node function and afterwards by an update handler of the same pass; Updates from handlers", setFromUpdateHandler},
 		{"memoized-bind-nested-in-a-bind", "BindMemoized created inside a bind's function under an upstream bind of changing depth, against its plain-Bind twin", memoNestedInBind},
 		{"memoized-rhs-with-aggregates-reused", "a cached right-hand side containing UnorderedArrayFold/ReduceBalanced leaves and re-enters the graph with its key, inputs written meanwhile", memoFoldReuse},
+		{"time-nodes-next-to-a-failing-bind", "a Snapshot woken by Clock.Advance in the height block of a bind whose function fails in that pass", timeNodesNextToFailingBind},
 		{"failing-siblings-queue-children", "nodes of one height block fail or panic and re-queue themselves while siblings queue children", failingSiblings},
 		{"fold-many-inputs", "UnorderedArrayFold with repeated inputs, most inputs changing in one pass", foldManyInputs},
 		{"binds-sharing-outer-nodes", "six binds of one height switch between shared outer nodes of different heights in one pass", bindsSharingOuter},
